@@ -240,3 +240,61 @@ func H_special() {
 	binds := operands(names, conc)
 	check(f[0], f[1], binds, "special")
 }
+
+// H_signed_literals: numeric literals written directly after a sign. The lexer fuses
+// `-3` / `+3` into one signed-number token; the parser must still give the operators
+// around it their table precedence (`$a -3 * $c` is `$a - (3 * $c)`, `-2 ** $b` is
+// `-(2 ** $b)`). Shapes: 0 `$a S3 B $c`, 1 `$aS3 B $c` (no blanks), 2 `S2 B $c` (prefix),
+// 3 `$a B S2 ** $c` (signed base of a power on the right of B).
+func H_signed_literals() {
+	shape := symx.Choose("shape", 4)
+	sign := []string{"-", "+"}[symx.Choose("sign", 2)]
+	j := symx.Choose("op", len(ops))
+	b := ops[j]
+	heavy := b.level == 10 || b.level == 3 || b.level == 4 || b.level == 5 || b.level == 8
+	if shape >= 2 && sign == "+" {
+		return // unary plus is not an operator of the table (and not supported by the parser: C01 nil-operand family)
+	}
+	var min, full string
+	names := []string{"a", "c"}
+	add := op{sym: sign, level: 9}
+	switch shape {
+	case 0, 1:
+		sp := " "
+		if shape == 1 {
+			sp = ""
+		}
+		min = "$a" + sp + sign + "3 " + b.sym + " $c"
+		if b.level == 9 && shape == 1 {
+			min = "$a" + sign + "3" + b.sym + " $c"
+		}
+		if firstBindsTighter(add, b) {
+			full = "($a " + sign + " 3) " + b.sym + " $c"
+		} else {
+			full = "$a " + sign + " (3 " + b.sym + " $c)"
+		}
+	case 2:
+		names = []string{"c"}
+		min = sign + "2 " + b.sym + " $c"
+		if b.sym == "**" && sign == "-" {
+			full = "-(2 ** $c)"
+		} else if b.sym == "**" {
+			full = "(2 ** $c)" // unary plus is not an operator of the table: `+2` is only a literal spelling
+		} else {
+			full = "(" + sign + "2) " + b.sym + " $c"
+		}
+	case 3:
+		if b.sym == "**" {
+			return
+		}
+		heavy = true
+		min = "$a " + b.sym + " " + sign + "2 ** $c"
+		if sign == "-" {
+			full = "$a " + b.sym + " (-(2 ** $c))"
+		} else {
+			full = "$a " + b.sym + " (2 ** $c)"
+		}
+	}
+	binds := operands(names, b.conc || heavy || shape == 3 || (shape == 2 && b.sym == "**"))
+	check(min, full, binds, "signed-literal")
+}
